@@ -40,7 +40,7 @@ package body c20_pkg is
 end package body ;
 use work.c20_pkg.all ;
 entity c20_e is
-  port ( p0 : in bit ; p1 : in integer range 0 to 3 ; p2 : in bit_vector ( 3 downto 0 ) ; q0 : out bit ) ;
+  port ( p0 : in bit ; p1 : in integer range 0 to 3 ; p2 : in bit_vector ( 3 downto 0 ) ; q0 : out bit ; q1 : out bit_vector ( 3 downto 0 ) ; q2 : out integer range 0 to 3 ; io0 : inout bit ; bf0 : buffer bit ; pr0 : in rec_t ; qr0 : out rec_t ; qa0 : out arr_t ; lk0 : linkage bit ) ;
 end entity ;
 ";
 const ARCH_DECLS: &str = "\
@@ -57,6 +57,9 @@ const ARCH_DECLS: &str = "\
   signal or0 : rec_t ;
   signal ot0 : boolean ;
   signal m0 , m1 , om0 : mem_t ;
+  alias al0 : bit is b0 ;
+  alias al1 : bit is q0 ;
+  alias alv : bit_vector ( 1 downto 0 ) is v0 ( 1 downto 0 ) ;
 ";
 const PROC_DECLS: &str = "    variable xb : bit ; variable xi : integer ; variable xv : bit_vector ( 3 downto 0 ) ; variable xt : boolean ;";
 
@@ -71,8 +74,8 @@ enum Ty {
     Mem,
 }
 /// (name, type) of signal id i+1
-const NSIG: u32 = 36;
-const SIGNALS: [(&str, Ty); 36] = [
+const NSIG: u32 = 44;
+const SIGNALS: [(&str, Ty); 44] = [
     ("b0", Ty::Bit), ("b1", Ty::Bit), ("b2", Ty::Bit), ("b3", Ty::Bit), ("b4", Ty::Bit), ("b5", Ty::Bit),
     ("p0", Ty::Bit), ("gs", Ty::Bit),
     ("i0", Ty::Int), ("i1", Ty::Int), ("i2", Ty::Int), ("i3", Ty::Int), ("p1", Ty::Int),
@@ -85,11 +88,16 @@ const SIGNALS: [(&str, Ty); 36] = [
     ("oi0", Ty::Int), ("oi1", Ty::Int),
     ("ov0", Ty::Vec), ("oa0", Ty::Arr), ("or0", Ty::Rec), ("ot0", Ty::Bool),
     ("m0", Ty::Mem), ("m1", Ty::Mem), ("om0", Ty::Mem),
+    // ports of mode out (read back: VHDL-2008), inout, buffer; record and array ports
+    ("q0", Ty::Bit), ("q1", Ty::Vec), ("q2", Ty::Int), ("io0", Ty::Bit), ("bf0", Ty::Bit),
+    ("pr0", Ty::Rec), ("qr0", Ty::Rec), ("qa0", Ty::Arr),
 ];
+/// aliases are entities of their own (ObjectAlias), not signals for the lint: (name, id)
+const ALIASES: [(&str, u32); 2] = [("al0", 230), ("al1", 231)];
 const GS: u32 = 8;
 const CLK: u32 = 24;
 /// signals 1..36; subprograms with their formals (`o id n formals.. returns_boolean`), parameter objects (`p id mode is_signal`)
-const ROOT: &str = "1 36 o 100 1 400 1 o 101 1 401 1 o 102 1 402 1 o 205 2 403 404 1 \
+const ROOT: &str = "1 44 t 7 i t 13 i t 17 i t 37 o t 38 o t 39 o t 40 b t 41 u t 42 i t 43 o t 44 o o 100 1 400 1 o 101 1 401 1 o 102 1 402 1 o 205 2 403 404 1 \
 o 206 4 410 411 412 413 0 o 207 2 414 415 0 o 208 2 416 417 0 o 209 2 418 419 0 o 228 2 420 421 0 o 229 2 422 423 0 \
 p 400 i 1 p 401 i 1 p 402 i 0 p 403 i 0 p 404 i 0 p 410 i 0 p 411 i 0 p 412 i 0 p 413 i 0 p 414 i 1 p 415 i 0 \
 p 416 i 1 p 417 o 1 p 418 i 0 p 419 o 0 p 420 b 1 p 421 i 0 p 422 i 1 p 423 o 1";
@@ -374,7 +382,16 @@ impl G {
                 Some(s) => self.read(s),
                 None => self.lit("'1'"),
             },
-            2 => self.name("xb", ID_XB),
+            2 => {
+                if self.allow_heur && self.rng.chance(1, 2) {
+                    // read through an alias: the alias is not a signal for the lint (oracle not applicable)
+                    self.heur = true;
+                    let (n, id) = *self.rng.pick(&ALIASES);
+                    self.name(n, id)
+                } else {
+                    self.name("xb", ID_XB)
+                }
+            }
             3 => match self.pick_sig(Ty::Vec) {
                 Some(s) => {
                     let p = self.read(s);
@@ -1683,6 +1700,14 @@ fn gen_case(rng: &mut Rng, id: String, label: String, max_depth: u32, allow_outa
                 }
                 listed.push((*s, e.sp()));
                 names.push(e);
+            }
+            if g.allow_heur && g.rng.chance(1, 3) {
+                // an alias as list entry: keyed by the alias entity
+                g.em.tok(",");
+                let (n, id) = *g.rng.pick(&ALIASES);
+                let e = g.name(n, id);
+                names.push(e);
+                dup = true;
             }
             g.em.tok(")");
             Sens::Names(names.clone())
